@@ -14,6 +14,7 @@
 #include <boost/gil/detail/is_channel_integral.hpp>
 #include <boost/gil/detail/mp11.hpp>
 
+#include <cstdint>
 #include <limits>
 #include <type_traits>
 
@@ -512,6 +513,20 @@ struct channel_multiplier_unsigned {
     using second_argument_type = ChannelValue;
     using result_type = ChannelValue;
     auto operator()(ChannelValue a, ChannelValue b) const -> ChannelValue
+    {
+        using base_t = typename base_channel_type<ChannelValue>::type;
+        return apply(a, b, std::integral_constant<bool, std::is_integral<base_t>::value && sizeof(base_t) <= 4>());
+    }
+private:
+    // integral channels of up to 32 bits: exact a * b / max in 64-bit integer arithmetic
+    // (truncating a / double(max) * b is neither commutative nor within one unit of a * b / max)
+    static auto apply(ChannelValue a, ChannelValue b, std::true_type) -> ChannelValue
+    {
+        using base_t = typename base_channel_type<ChannelValue>::type;
+        std::uint64_t const max = static_cast<base_t>(channel_traits<ChannelValue>::max_value());
+        return ChannelValue(static_cast<base_t>(std::uint64_t(static_cast<base_t>(a)) * std::uint64_t(static_cast<base_t>(b)) / max));
+    }
+    static auto apply(ChannelValue a, ChannelValue b, std::false_type) -> ChannelValue
     {
         return ChannelValue(static_cast<typename base_channel_type<ChannelValue>::type>(a / double(channel_traits<ChannelValue>::max_value()) * b));
     }
